@@ -426,7 +426,7 @@ fn run_near_collisions(cx: &mut CaseCx, _case: &Value) {
     }
   }
   // a second family of many short URL-like measurements (more candidates => closer pairs)
-  let urls: Vec<Vec<u8>> = (0..60_000u32).map(|i| format!("https://example.com/page/{}", i).into_bytes()).collect();
+  let urls: Vec<Vec<u8>> = (0..(if cx.tier.thorough() { 1_500_000u32 } else { 450_000 })).map(|i| format!("https://example.com/page/{}", i).into_bytes()).collect();
   let mut vals: Vec<([u8; 32], Vec<u8>, Vec<u8>, u32)> = par_map(&triples, |_, &(m, e, t)| (rnd_of(&ss[m], &ss[e], t), ss[m].clone(), ss[e].clone(), t));
   vals.extend(par_map(&urls, |_, u| (rnd_of(u, b"2026-w39", 3), u.clone(), b"2026-w39".to_vec(), 3u32)));
   cx.count("randomness_values_examined", vals.len() as u64);
@@ -525,7 +525,7 @@ pub fn spec() -> PropSpec {
       },
       Check {
         name: "near-collision-histories",
-        rule: "among ~90k triples (the injectivity family with t in 1..3 plus 60000 URL-like measurements) the 40 pairs whose local randomness agree in the most leading or trailing bytes (>= 3) are run back-to-back on one fresh thread, in both orders: tag and key of the second must equal those computed alone on a fresh thread",
+        rule: "among ~480k triples (the injectivity family with t in 1..3 plus 450000 URL-like measurements; thorough 1.5 million: by the birthday bound some pairs agree in 4 bytes) the 40 pairs whose local randomness agree in the most leading or trailing bytes (>= 3) are run back-to-back on one fresh thread, in both orders: tag and key of the second must equal those computed alone on a fresh thread",
         gen: |_| vec![json!({})],
         run: run_near_collisions,
         min_counts: &[("near_collision_histories", 10)],
